@@ -14,3 +14,25 @@ def _(self, pos):
 def _(self):
     ensures(result == sum(self.solution[c] for c in self.solution))
     modifies()
+
+
+@contract("aldy.solutions.CNSolution.__init__")
+def _(self, gene, score, solution):
+    types(self="CNSolution", gene="Gene", score="float", solution="List[str]")
+    requires("1" in gene.cn_configs, len(gene.regions) > 0)
+    requires(forall(lambda i=int: implies(0 <= i and i < len(solution), solution[i] in gene.cn_configs)))
+    # every configuration has one table per gene copy of the default configuration, over the region names of regions[0]
+    requires(forall(lambda c=str, g=int, r=str: implies(c in gene.cn_configs and 0 <= g and g < len(gene.cn_configs[c].cn) and r in gene.cn_configs[c].cn[g],
+                                                        g < len(gene.cn_configs["1"].cn) and len(gene.regions) > 0 and r in gene.regions[0])))
+    # C03: the structure is the given list as a multiset, with the given score
+    ensures(self.score == score, label="score")
+    ensures(forall(lambda c=str: (c in self.solution) == (sum(1 for i in range(0, len(solution)) if solution[i] == c) > 0)), label="multiset-keys")
+    ensures(forall(lambda c=str: implies(c in self.solution, self.solution[c] == sum(1 for i in range(0, len(solution)) if solution[i] == c))), label="multiset-counts")
+    # region copy numbers: sum over the listed configurations
+    ensures(len(self.region_cn) == len(gene.cn_configs["1"].cn), label="tables")
+    ensures(forall(lambda g=int, r=str: implies(0 <= g and g < len(gene.cn_configs["1"].cn) and r in gene.regions[0],
+                                                r in self.region_cn[g] and self.region_cn[g][r] == sum(
+                                                    (gene.cn_configs[solution[i]].cn[g][r]
+                                                     if g < len(gene.cn_configs[solution[i]].cn) and r in gene.cn_configs[solution[i]].cn[g] else 0)
+                                                    for i in range(0, len(solution))))), label="region-cn")
+    modifies(self)
